@@ -10,7 +10,7 @@ from .. import flow
 from ..cfg import cfg_of
 from ..model import AnchorError, Func, UnknownIdiom, short, walk_no_nested
 from .c09_helpers import (ASGI_REQ, UNK, WSGI_REQ, ReachingDefs, SiteEscape, branch_facts, ceval, concat_parts,
-                          effective_members, fact_value, node_defs, node_of, polar_fact, raises_on, resolves_to, split_key, table_of)
+                          effective_members, fact_value, inline_stmt_helpers, node_defs, node_of, polar_fact, raises_on, resolves_to, split_key, table_of)
 from .common import implied, walk_self
 
 PQS = 'falcon.util.uri.parse_query_string'
@@ -60,7 +60,7 @@ def r1_split_then_decode(run):
     for n in walk_no_nested(f.node):
         if (isinstance(n, ast.Assign) and isinstance(n.value, ast.Call) and isinstance(n.value.func, ast.Attribute)
                 and n.value.func.attr in ('partition', 'rpartition', 'split', 'rsplit')
-                and n.value.args and isinstance(n.value.args[0], ast.Constant) and n.value.args[0].value == '='):
+                and n.value.args and _separator_value(p, f, n.value.args[0]) == '='):
             part = n
     if part is None:
         raise AnchorError('%s: the name/value separation on "=" was not found' % PQS)
@@ -80,6 +80,15 @@ def r1_split_then_decode(run):
     if loop is None or not isinstance(loop.target, ast.Name) or not _is_name(part.value.func.value, loop.target.id):
         raise UnknownIdiom('%s: the partition is not applied to the variable of a field loop' % PQS)
     it = loop.iter
+    if isinstance(it, ast.Name) and it.id not in params:
+        # `fields = query_string.split('&')` bound once in front of the loop
+        stores = [x for x in ast.walk(f.node) if isinstance(x, ast.Name) and x.id == it.id and isinstance(x.ctx, (ast.Store, ast.Del))]
+        binds = [x for x in walk_no_nested(f.node) if isinstance(x, (ast.Assign, ast.AnnAssign)) and x.value is not None
+                 and (x.targets if isinstance(x, ast.Assign) else [x.target]) == [stores[0]]] if len(stores) == 1 else []
+        other_uses = [x for x in ast.walk(f.node) if isinstance(x, ast.Name) and x.id == it.id and isinstance(x.ctx, ast.Load) and x is not it]
+        if len(binds) == 1 and not other_uses and not any(isinstance(x, ast.Name) and x.id == qs and isinstance(x.ctx, (ast.Store, ast.Del))
+                                                          for x in ast.walk(f.node)):
+            it = binds[0].value
     if not (isinstance(it, ast.Call) and isinstance(it.func, ast.Attribute) and it.func.attr == 'split' and it.args
             and _is_name(it.func.value, qs)):
         raise UnknownIdiom('%s: field loop iterates %s' % (PQS, short(it)))
@@ -158,6 +167,10 @@ def _separator_value(p, f: Func, e):
         d = _unpassed_defaults(p, f, [e.id]).get(e.id)
         if isinstance(d, ast.Constant):
             return d.value
+    if isinstance(e, (ast.Name, ast.Attribute)) and not (isinstance(e, ast.Name) and e.id in f.params()):
+        v = p.fold(f.module, e, None, f)      # a module-level constant (`_FIELD_SEP = '&'`)
+        if isinstance(v, str):
+            return v
     return UNK
 
 
@@ -726,6 +739,17 @@ def _last_occurrence_split(run, f: Func, g: Func, tag: str) -> bool:
 
 
 def _getter(run, p, E, f: Func, cls):
+    # a block of the template (the min / max range check, the store hook) may live in a plain module-level helper called
+    # as a statement (`_check_param_bounds(name, val, min_value, max_value)`): the getter is read with the helper's
+    # statements in place of the call; the escape summary follows the call itself
+    f0 = f
+    f = inline_stmt_helpers(p, f)
+    if f is not f0:
+        for c in walk_no_nested(f0.node):
+            if isinstance(c, ast.Call):
+                h = p.resolve_callable(f0, c.func)
+                if isinstance(h, Func) and h.cls is None and h.module is f0.module:
+                    run.use(h)
     cfg = cfg_of(f, p)
     run.use_cfg(cfg)
     params = f.params()
@@ -750,6 +774,41 @@ def _getter(run, p, E, f: Func, cls):
                 and (table_of(f, e.comparators[0]) or ('', ''))[0] == 'params'):
             return 1 if isinstance(e.ops[0], ast.In) else -1
         return 0
+
+    # EAFP presence: `try: x = params[name]` (the only statement of the body) `except KeyError: <absent arm>` -- a dict
+    # subscription raises KeyError iff the key is absent, so the handler is the "absent" arm and the normal completion of
+    # the read the "present" one (the same case split as `if name in params`)
+    eafp = []      # (try, lookup node ids, handler node ids)
+    for t in [n for n in walk_no_nested(f.node) if isinstance(n, ast.Try)]:
+        hs = [h for h in t.handlers if h.type is None or any(
+            p.resolve_expr(f.module, ht, f) in ('builtins.KeyError', 'builtins.LookupError', 'builtins.Exception', 'builtins.BaseException')
+            for ht in (h.type.elts if isinstance(h.type, ast.Tuple) else [h.type]))]
+        reads = [r for r in table_reads if any(x is r for st in t.body for x in ast.walk(st))]
+        if not hs or not reads:
+            continue
+        exact = (len(t.body) == 1 and len(reads) == 1 and _is_name(reads[0].slice, name) and len(hs) == 1 and hs[0] is t.handlers[0]
+                 and hs[0].type is not None and p.resolve_expr(f.module, hs[0].type, f) in ('builtins.KeyError', 'builtins.LookupError')
+                 and isinstance(t.body[0], (ast.Assign, ast.AnnAssign, ast.Expr))
+                 # nothing else in the statement can raise KeyError / fail
+                 and sum(1 for x in ast.walk(t.body[0]) if isinstance(x, (ast.Subscript, ast.Call))) == 1)
+        if not exact:
+            raise UnknownIdiom('%s: the parameter table is read inside a try whose %s arm is not read as the "absent" case: %s'
+                               % (f.qual, short(hs[0].type, 30) if hs[0].type is not None else 'bare except', short(t.body[0], 60)))
+        eafp.append((t, [i for i in cfg.nodes_for(t.body[0]) if not cfg.node(i).copy],
+                     [n.id for n in cfg.live_nodes() if n.kind == 'handler' and n.ast is hs[0]]))
+    eafp_handlers = {id(t.handlers[0]) for t, _l, _h in eafp}
+
+    def presence(nid) -> Optional[bool]:
+        r = polar_fact(cfg, nid, present_cls)
+        if r is not None:
+            return r
+        for t, look, hnd in eafp:
+            if hnd and flow.dominated_by_nodes(cfg, nid, hnd):
+                return False
+            ok_edges = [(a, b, l) for a in look for (b, l) in cfg.succ[a] if l != 'exc']
+            if ok_edges and nid not in look and nid not in flow.reachable(cfg, [cfg.entry], avoid_edges=ok_edges):
+                return True
+        return None
 
     # ---- (a) last occurrence
     if table_reads:
@@ -779,7 +838,7 @@ def _getter(run, p, E, f: Func, cls):
                 raise UnknownIdiom('%s: no isinstance(<value>, list) case split' % f.qual)
 
     # ---- (b) only the documented 400-class errors escape; handlers report HTTPInvalidParam
-    summ = E.summary(f, cls)
+    summ = E.summary(f0, cls)
     bad = []
     for k, chain in summ.items():
         c, org = split_key(k)
@@ -795,6 +854,8 @@ def _getter(run, p, E, f: Func, cls):
                  getattr(o, 'cons', c), where=o[0], witness=['%s  %s' % (w[0], w[1]) for w in chain],
                  runtime_witness='a parameter value for which %s() raises %s (a 500) instead of answering 400' % (f.name, c.rsplit('.', 1)[-1]))
     for h in [n for n in walk_no_nested(f.node) if isinstance(n, ast.ExceptHandler)]:
+        if id(h) in eafp_handlers:
+            continue        # the "parameter absent" arm of an EAFP read: judged under (d)
         last = h.body[-1] if h.body else None
         if not isinstance(last, (ast.Raise, ast.Return, ast.Pass, ast.Continue, ast.Break, ast.Assign)):
             raise UnknownIdiom('%s: except arm ends with %s' % (f.qual, short(last, 60)))
@@ -860,16 +921,20 @@ def _getter(run, p, E, f: Func, cls):
                   witness=['returns %s' % short(r.ast.value) for r in ret_after] + rebound,
                   runtime_witness='store[name] differs from the returned value (the unconverted string; for ?id=1&id=2 the whole list '
                                   "['1', '2'] while '2' is returned)")
+    # every path to a successful return either writes the returned value into the store or passes a branch outcome that
+    # says no store was handed in (`if store is not None: store[name] = v` / `if store is None: return v` + store + return)
+    no_store_edges = set()
+    for t in cfg.live_nodes():
+        if t.kind != 'test' or t.ast is None:
+            continue
+        for (y, l) in cfg.succ[t.id]:
+            if l in ('T', 'F') and _none_fact(t.ast, l == 'T', 'store') is False:
+                no_store_edges.add((t.id, y, l))
     for rn in success:
-        ok = False
-        for sn in stores:
-            if short(sn.ast.value) != short(rn.ast.value) or rn.id not in flow.reachable(cfg, [sn.id]):
-                continue
-            tests = [t.id for t in cfg.live_nodes() if t.kind == 'test' and sn.id in flow.reachable(cfg, [b for (_a, b, _l) in flow.edges_out(cfg, t.id, 'T')])
-                     and _none_fact(t.ast, True, 'store') is True]
-            if tests and flow.dominated_by_nodes(cfg, rn.id, tests):
-                ok = True
-        run.check(ok, '%s: every successful return passes the `store is not None` hook first' % tag, f, rn.ast,
+        writes = [sn.id for sn in stores if short(sn.ast.value) == short(rn.ast.value)]
+        path = flow.find_path(cfg, [cfg.entry], [rn.id], avoid_nodes=writes, avoid_edges=no_store_edges, edge_filter=flow.no_exc) if writes else None
+        run.check(bool(writes) and path is None, '%s: every successful return passes the `store is not None` hook first' % tag, f, rn.ast,
+                  witness=flow.describe_path(cfg, path)[-8:] if path else None,
                   runtime_witness='a path on which the converted value is returned but never put into store')
     for c in deleg:
         uses_store = any(_is_name(x, 'store') for a in list(c.args) + [k.value for k in c.keywords] for x in walk_self(a))
@@ -884,7 +949,7 @@ def _getter(run, p, E, f: Func, cls):
         raise UnknownIdiom('%s: `return default` not found' % f.qual)
     if table_reads:
         for n in dret:
-            pres = polar_fact(cfg, n.id, present_cls)
+            pres = presence(n.id)
             req = fact_value(cfg, n.id, required_atom)
             run.check(pres is False and req is False, '%s: default is returned only when the parameter is absent and not required' % tag, f, n.ast,
                       where='%s:%s' % (f.file, n.lineno), witness=['present=%s required=%s' % (pres, req)],
@@ -894,13 +959,13 @@ def _getter(run, p, E, f: Func, cls):
         if not miss:
             raise UnknownIdiom('%s: `raise HTTPMissingParam` not found' % f.qual)
         for n in miss:
-            pres = polar_fact(cfg, n.id, present_cls)
+            pres = presence(n.id)
             req = fact_value(cfg, n.id, required_atom)
             run.check(pres is False and req is True, '%s: HTTPMissingParam is raised only when the parameter is absent and required' % tag, f, n.ast,
                       where='%s:%s' % (f.file, n.lineno), witness=['present=%s required=%s' % (pres, req)],
                       runtime_witness='required=False and a missing parameter raises HTTPMissingParam instead of returning the default')
         for n in success:
-            pres = polar_fact(cfg, n.id, present_cls)
+            pres = presence(n.id)
             run.check(pres is True, '%s: a value is returned only when the parameter is present' % tag, f, n.ast, where='%s:%s' % (f.file, n.lineno))
     else:
         # result variables of the delegate calls
@@ -1001,8 +1066,8 @@ def r3_getters(run):
 
 def _list_accumulators(f: Func):
     """Locals of `f` used as an ordered text accumulator: bound once, to an empty list (`[]` / `list()`), every other
-    occurrence is the receiver of a one-argument `.append(...)` statement or the sole argument of `<literal>.join(...)`,
-    and there is exactly one such join.  -> (name -> the join's separator literal, name -> the join call).  (A list that is also sorted, sliced, indexed,
+    occurrence is the receiver of a one-argument `.append(...)` statement, the sole argument of `<literal>.join(...)` or
+    an emptiness / length test (`not pieces`, `if pieces`, `len(pieces)`), and there is exactly one such join.  -> (name -> the join's separator literal, name -> the join call).  (A list that is also sorted, sliced, indexed,
     handed on ... is not read as one: it is not in the result.)"""
     par = _parent_map(f.node)
     out: Dict[str, str] = {}
@@ -1035,6 +1100,10 @@ def _list_accumulators(f: Func):
                     and isinstance(up.func.value, ast.Constant) and isinstance(up.func.value.value, str):
                 seps.add(up.func.value.value)
                 joins.append(up)
+            elif (isinstance(up, ast.UnaryOp) and isinstance(up.op, ast.Not)) \
+                    or (isinstance(up, (ast.If, ast.While, ast.IfExp)) and up.test is n) \
+                    or (isinstance(up, ast.Call) and _is_name(up.func, 'len') and up.args == [n] and not up.keywords):
+                pass        # an emptiness / length test reads the list without changing it (`if not pieces: return ''`)
             else:
                 ok = False
         if ok and n_app and len(joins) == 1:
@@ -1054,27 +1123,66 @@ def r4_to_query_str(run):
         raise AnchorError('%s: comma_delimited_lists parameter missing' % TO_QS)
     flag = params[1]
 
-    def is_enc(e) -> bool:
-        return isinstance(e, ast.Call) and resolves_to(p, f, e, ENCODE_VALUE)
+    def callee_of(g: Func, fexpr, depth=0):
+        """What the callable expression denotes in `g`: a Func / qualified name; a local bound once to a callable
+        (`enc = encode_value`) denotes what it was bound to."""
+        t = p.resolve_callable(g, fexpr) if isinstance(fexpr, (ast.Name, ast.Attribute)) else None
+        if t is None and isinstance(fexpr, ast.Name) and fexpr.id not in g.params() and depth < 3:
+            stores = [x for x in ast.walk(g.node) if isinstance(x, ast.Name) and x.id == fexpr.id and isinstance(x.ctx, (ast.Store, ast.Del))]
+            binds = [x for x in walk_no_nested(g.node) if isinstance(x, ast.Assign) and len(x.targets) == 1 and _is_name(x.targets[0], fexpr.id)]
+            if len(stores) == 1 and len(binds) == 1 and isinstance(binds[0].value, (ast.Name, ast.Attribute)):
+                return callee_of(g, binds[0].value, depth + 1)
+        return t
 
-    def is_enc_ref(e) -> bool:
-        t = p.resolve_callable(f, e) if isinstance(e, (ast.Name, ast.Attribute)) else None
+    def is_enc_ref(e, g: Func = f) -> bool:
+        t = callee_of(g, e)
         return getattr(t, 'qual', t) == ENCODE_VALUE
 
-    def encoded_value(e, nid_for_defs=None) -> Optional[str]:
-        """'enc' | 'bool' | 'join' | None"""
-        if is_enc(e):
+    def is_enc(e, g: Func = f) -> bool:
+        return isinstance(e, ast.Call) and is_enc_ref(e.func, g)
+
+    def encoded_value(e, g: Func = f, depth=0) -> Optional[str]:
+        """'enc' | 'bool' | 'join' | None.  A call of a plain module-level helper is what the helper returns: 'enc' when
+        every return of it is an encoded form (the helper `_render_scalar(v)`: 'true' / 'false' / encode_value(str(v)))."""
+        if is_enc(e, g):
             return 'enc'
         if isinstance(e, ast.Constant) and e.value in ('true', 'false'):
             return 'bool'
         if (isinstance(e, ast.Call) and isinstance(e.func, ast.Attribute) and e.func.attr == 'join' and isinstance(e.func.value, ast.Constant)
                 and e.func.value.value == ',' and len(e.args) == 1):
             a = e.args[0]
-            if isinstance(a, ast.Call) and _is_name(a.func, 'map') and len(a.args) == 2 and is_enc_ref(a.args[0]):
+            if isinstance(a, ast.Call) and _is_name(a.func, 'map') and len(a.args) == 2 and is_enc_ref(a.args[0], g):
                 return 'join'
-            if isinstance(a, (ast.GeneratorExp, ast.ListComp)) and is_enc(a.elt):
+            if isinstance(a, (ast.GeneratorExp, ast.ListComp)) and is_enc(a.elt, g):
                 return 'join'
             return 'join-unencoded'
+        if isinstance(e, ast.IfExp):
+            ks = {encoded_value(e.body, g, depth), encoded_value(e.orelse, g, depth)}
+            return None if None in ks or 'join-unencoded' in ks else ('bool' if ks == {'bool'} else 'join' if ks == {'join'} else 'enc')
+        if isinstance(e, ast.Call) and depth < 2 and not any(isinstance(a, ast.Starred) for a in e.args):
+            h = callee_of(g, e.func)
+            if isinstance(h, Func) and h.cls is None and h.parent is None and not h.is_async and not h.decorators \
+                    and not any(isinstance(x, (ast.Yield, ast.YieldFrom, ast.Global, ast.Nonlocal)) for x in ast.walk(h.node)):
+                rets = [x for x in walk_no_nested(h.node) if isinstance(x, ast.Return)]
+                hcfg = cfg_of(h, p)
+                falls_off = any(l != 'ret' for (_a, l) in hcfg.pred.get(hcfg.exit, ()))      # an implicit `return None`
+                if not rets or falls_off:
+                    return None
+                ks = set()
+                for r in rets:
+                    v = r.value
+                    if isinstance(v, ast.Name) and v.id not in h.params():
+                        binds = [x for x in walk_no_nested(h.node) if isinstance(x, ast.Assign) and len(x.targets) == 1 and _is_name(x.targets[0], v.id)]
+                        stores = [x for x in ast.walk(h.node) if isinstance(x, ast.Name) and x.id == v.id and isinstance(x.ctx, (ast.Store, ast.Del))]
+                        if not binds or len(binds) != len(stores):
+                            return None
+                        ks |= {encoded_value(b_.value, h, depth + 1) for b_ in binds}
+                    else:
+                        ks.add(encoded_value(v, h, depth + 1) if v is not None else None)
+                if None in ks or 'join-unencoded' in ks:
+                    return None
+                run.use(h)
+                return 'bool' if ks == {'bool'} else 'join' if ks == {'join'} else 'enc'
         return None
 
     # the ordered text accumulation: `query_str += <pair>` on a string, or `pieces.append(<pair>)` on a local list that
@@ -2016,10 +2124,19 @@ def _eval3(e, cell, supers, flags, depth=0):
     return None
 
 
-def _helper_use_harmless(p, fn: Func, call: ast.Call, use: ast.Name, depth: int) -> bool:
+def _guard_proves_clean(test, want: bool, supers, flags, dirty) -> bool:
+    """The outcome `want` of `test` is impossible for a value in any of the dirty cells: past it the value holds nothing
+    decode() would rewrite."""
+    return all(_eval3(test, cell, supers, flags) is (not want) for cell in dirty)
+
+
+def _helper_use_harmless(p, fn: Func, call: ast.Call, use: ast.Name, depth: int, cellctx=None) -> bool:
     """The raw value is an argument of a call of a plain module-level helper: look through it.  True when, inside the
     helper, the parameter standing for the value is only decoded, tested for blankness / a character, or comma-split
-    (R1 walks the helper for what becomes of the pieces), and re-bound only to its own decoded form."""
+    (R1 walks the helper for what becomes of the pieces), and re-bound only to its own decoded form.  Any other use
+    of it there (`return text`, a store) is reachable only past a guard that proves the value clean: the guards of the
+    helper are evaluated on the same cells, a flag parameter (`_maybe_decode(text, is_encoded)`) having, per cell, the
+    truth of the argument at the call (`cellctx` = the caller's (flags, superstrings, dirty cells))."""
     g = p.callee(fn, call)
     if not isinstance(g, Func) or depth > 2 or g.is_async or g.decorators or g.cls is not None:
         return False
@@ -2043,10 +2160,46 @@ def _helper_use_harmless(p, fn: Func, call: ast.Call, use: ast.Name, depth: int)
     def is_dec(e) -> bool:
         return isinstance(e, ast.Call) and resolves_to(p, g, e, DECODE)
 
+    barriers = set()
     for n in gcfg.live_nodes():
         for d in node_defs(n):
             if d.name == pname and not (d.value is not None and is_dec(d.value) and d.value.args and _is_name(d.value.args[0], pname)):
                 return False
+            if d.name == pname:
+                barriers.add(n.id)
+    # the helper's own guards: per-cell truth of its flag parameters, taken from the arguments of this call
+    gflags, gctx, clean_edges = {}, None, set()
+    if cellctx is not None:
+        cflags, csupers, dirty = cellctx
+        bound = dict(zip(params, call.args))
+        bound.update({k.arg: k.value for k in call.keywords if k.arg in params})
+        stored = {x.id for x in ast.walk(g.node) if isinstance(x, ast.Name) and isinstance(x.ctx, (ast.Store, ast.Del))}
+        for pn, arg in bound.items():
+            if pn == pname or pn in stored:
+                continue
+            tbl = {cell: _eval3(arg, cell, csupers, cflags) for cell in dirty}
+            if any(x is not None for x in tbl.values()):
+                gflags[pn] = tbl
+        gctx = (gflags, {pname}, dirty)
+        for n in gcfg.live_nodes():
+            if n.kind != 'test' or n.ast is None:
+                continue
+            for (y, l) in gcfg.succ[n.id]:
+                if l in ('T', 'F') and _guard_proves_clean(n.ast, l == 'T', {pname}, gflags, dirty):
+                    clean_edges.add((n.id, y, l))
+
+    def behind_clean_guard(u, unid) -> bool:
+        if gctx is None:
+            return False
+        # an arm of a conditional expression whose test proves the value clean
+        cur, up_ = u, gpar.get(id(u))
+        while up_ is not None and not isinstance(up_, ast.stmt):
+            if isinstance(up_, ast.IfExp) and cur is not up_.test and _guard_proves_clean(up_.test, cur is up_.body, {pname}, gflags, gctx[2]):
+                return True
+            cur, up_ = up_, gpar.get(id(up_))
+        starts = [y for (y, l) in gcfg.succ[gcfg.entry] if l != 'exc']
+        return unid not in starts and flow.find_path(gcfg, starts, [unid], avoid_nodes=barriers - {unid}, avoid_edges=clean_edges,
+                                                     edge_filter=flow.no_exc) is None
     for u in ast.walk(g.node):
         if not (isinstance(u, ast.Name) and u.id == pname and isinstance(u.ctx, ast.Load)):
             continue
@@ -2066,7 +2219,7 @@ def _helper_use_harmless(p, fn: Func, call: ast.Call, use: ast.Name, depth: int)
         if isinstance(up, ast.UnaryOp) and isinstance(up.op, ast.Not):
             continue
         if isinstance(up, ast.Compare) and len(up.ops) == 1 and isinstance(up.ops[0], (ast.In, ast.NotIn)) and up.comparators[0] is u \
-                and isinstance(up.left, ast.Constant):
+                and (isinstance(up.left, ast.Constant) or isinstance(p.fold(g.module, up.left, None, g), str)):
             continue
         if isinstance(up, (ast.If, ast.While, ast.IfExp)) and up.test is u:
             continue
@@ -2074,7 +2227,9 @@ def _helper_use_harmless(p, fn: Func, call: ast.Call, use: ast.Name, depth: int)
             continue
         if isinstance(up, ast.keyword):
             up = gpar.get(id(up))
-        if isinstance(up, ast.Call) and not is_dec(up) and _helper_use_harmless(p, g, up, u, depth + 1):
+        if isinstance(up, ast.Call) and not is_dec(up) and _helper_use_harmless(p, g, up, u, depth + 1, gctx):
+            continue
+        if behind_clean_guard(u, unid):
             continue
         return False
     return True
@@ -2102,7 +2257,7 @@ def r15_undecoded_shortcut(run):
     for n in walk_no_nested(f.node):
         if (isinstance(n, ast.Assign) and isinstance(n.value, ast.Call) and isinstance(n.value.func, ast.Attribute)
                 and n.value.func.attr in ('partition', 'rpartition') and n.value.args
-                and isinstance(n.value.args[0], ast.Constant) and n.value.args[0].value == '='):
+                and _separator_value(p, f, n.value.args[0]) == '='):
             part = n
     if part is None or not (isinstance(part.targets[0], ast.Tuple) and len(part.targets[0].elts) == 3
                             and all(isinstance(x, ast.Name) for x in part.targets[0].elts)):
@@ -2119,8 +2274,14 @@ def r15_undecoded_shortcut(run):
     def is_decode(e) -> bool:
         return isinstance(e, ast.Call) and resolves_to(p, f, e, DECODE)
 
-    def harmless(use: ast.Name) -> bool:
+    def harmless(use: ast.Name, supers) -> bool:
         up = par.get(id(use))
+        # an arm of a conditional expression whose test proves the value clean (`decode(v) if is_encoded else v`)
+        cur, up_ = use, up
+        while up_ is not None and not isinstance(up_, ast.stmt):
+            if isinstance(up_, ast.IfExp) and cur is not up_.test and _guard_proves_clean(up_.test, cur is up_.body, supers, flags, dirty):
+                return True
+            cur, up_ = up_, par.get(id(up_))
         if isinstance(up, ast.Call) and is_decode(up) and use in up.args:
             if up.keywords or len(up.args) != 1:
                 raise UnknownIdiom('%s: decode() called with options: %s' % (PQS, short(up, 60)))
@@ -2130,16 +2291,30 @@ def r15_undecoded_shortcut(run):
         if isinstance(up, ast.UnaryOp) and isinstance(up.op, ast.Not):
             return True
         if isinstance(up, ast.Compare) and len(up.ops) == 1 and isinstance(up.ops[0], (ast.In, ast.NotIn)) and up.comparators[0] is use \
-                and isinstance(up.left, ast.Constant):
-            return True
+                and (isinstance(up.left, ast.Constant) or isinstance(p.fold(f.module, up.left, None, f), str)):
+            return True       # `',' in v`, the literal written in place or as a module-level constant
         if isinstance(up, (ast.If, ast.While, ast.IfExp)) and up.test is use:
             return True   # truthiness
         if isinstance(up, ast.BoolOp) and cfg.node(_use_node(cfg, use)).kind == 'test':
             return True   # operand of a branch condition
         if isinstance(up, ast.keyword):
             up = par.get(id(up))
-        if isinstance(up, ast.Call) and not is_decode(up) and _helper_use_harmless(p, f, up, use, 0):
+        if isinstance(up, ast.Call) and not is_decode(up) and _helper_use_harmless(p, f, up, use, 0, (flags, supers, dirty)):
             return True   # handed to a module-level helper that itself only decodes / blank-tests / comma-splits it (R1 reads the pieces)
+        return False
+
+    def decoded_or_clean(nm, v, supers) -> bool:
+        """`v` (what nm is re-bound to) is nm decoded, or nm itself where a guard proves it clean: decode(nm),
+        `decode(nm) if is_encoded else nm`, a helper call `_maybe_decode(nm, is_encoded)` read by _helper_use_harmless."""
+        if is_decode(v) and v.args and _is_name(v.args[0], nm) and len(v.args) == 1 and not v.keywords:
+            return True
+        if isinstance(v, ast.IfExp):
+            return all(decoded_or_clean(nm, arm, supers) or (_is_name(arm, nm) and _guard_proves_clean(v.test, arm is v.body, supers, flags, dirty))
+                       for arm in (v.body, v.orelse))
+        if isinstance(v, ast.Call) and not is_decode(v):
+            uses = [x for a in list(v.args) + [k.value for k in v.keywords] for x in [a] if _is_name(x, nm)]
+            others = [x for x in ast.walk(v) if _is_name(x, nm) and not any(x is u for u in uses)]
+            return len(uses) == 1 and not others and _helper_use_harmless(p, f, v, uses[0], 0, (flags, supers, dirty))
         return False
 
     n_ob = 0
@@ -2153,14 +2328,14 @@ def r15_undecoded_shortcut(run):
                 if l not in ('T', 'F'):
                     continue
                 want = (l == 'T')
-                if all(_eval3(n.ast, cell, supers, flags) is (not want) for cell in dirty):
+                if _guard_proves_clean(n.ast, want, supers, flags, dirty):
                     clean_edges.add((n.id, y, l))
         barriers = set()
         for n in cfg.live_nodes():
             for d in node_defs(n):
                 if d.name != nm or n.id == part_nid:
                     continue
-                if d.value is not None and is_decode(d.value) and d.value.args and _is_name(d.value.args[0], nm):
+                if d.value is not None and d.how == 'assign' and decoded_or_clean(nm, d.value, supers):
                     barriers.add(n.id)
                 else:
                     raise UnknownIdiom('%s: %s is rebound by %s' % (PQS, nm, short(d.stmt, 80)))
@@ -2171,7 +2346,7 @@ def r15_undecoded_shortcut(run):
             unid = _use_node(cfg, use)
             if not any(d.stmt is part for d in rd.at(unid, nm)):
                 continue
-            if harmless(use) or (unid, nm) in seen_nodes:
+            if harmless(use, supers) or (unid, nm) in seen_nodes:
                 continue
             seen_nodes.add((unid, nm))
             starts = [y for (y, l) in cfg.succ[part_nid] if flow.no_exc(part_nid, y, l)]
